@@ -64,6 +64,8 @@ pub struct GateState {
     pub open: Option<StepOut>,
     /// outcome to use if the wrapped sink is (wrongly) run on a caller's thread
     pub caller_outcome: Option<StepOut>,
+    /// the wrapped sink's flush() fails (C16: such an error is the caller's, never the handler's)
+    pub flush_fails: bool,
     /// free-running mode with a repeating outcome pattern: metric #seq gets
     /// `open_cycle[seq % len]` (takes precedence over `open`)
     pub open_cycle: Option<Vec<StepOut>>,
@@ -208,6 +210,14 @@ impl MetricSink for GatedSink {
             StepOut::OkShort => Ok(if metric.len() >= 2 { (metric.len() / 2).max(1) } else { metric.len() }),
             StepOut::Err(k) => Err(util::token_error(k, seq as u64)),
             StepOut::Panic => panic!("{} (wrapped sink, metric #{})", HARNESS_PANIC, seq),
+        }
+    }
+
+    fn flush(&self) -> io::Result<()> {
+        if self.gate.lock().flush_fails {
+            Err(util::token_error(5, 777_777))
+        } else {
+            Ok(())
         }
     }
 
